@@ -146,7 +146,7 @@ func run(cfg lib.Cfg) error {
 	}
 	n := 45
 	if cfg.Thorough() {
-		n = 2000
+		n = 700
 	}
 	for i := 0; i < n; i++ {
 		twoRefs, twoDeps := r.Intn(2) == 0, r.Intn(3) == 0
@@ -228,7 +228,8 @@ func run(cfg lib.Cfg) error {
 		sc.Acts = append(sc.Acts, ts.Act{Do: "drain"})
 		if !never {
 			// everyone runs to quiescence: referenced first is NOT enforced, round robin
-			for k := 0; k < head+4; k++ {
+			// a dependent reads the dependency position before its reference moves in the same round
+			for k := 0; k < 2*((head+sc.Srcs[0].Batch-1)/sc.Srcs[0].Batch+2); k++ {
 				for t := 1; t <= g.nTasks; t++ {
 					sc.Acts = append(sc.Acts, ts.Act{Do: "step", Tid: t})
 				}
